@@ -12,31 +12,31 @@ CLAIMED = {
  "C09": ("fault_enumeration", "4.6", "per seeded scenario (generated repository x one of 24 repository-changing operations) every boundary before a mutating system call is enumerated as a crash point; the disk image of a process crash (and, with core.fsyncObjectFiles, of a power loss with un-fsynced data lost/torn/zeroed) is materialised and opened by a fresh Repo; refs must be old-or-new and name intact complete objects, everything reachable before must be intact, nothing visible may fail its hash, index/config old-or-new, a follow-up operation must work",
          "crash points exhaustive within a scenario, scenarios sampled; metadata operations assumed ordered and durable (ext4-ordered-like); directory fsync not modelled",
          "deterministic simulation: syscall journal over simfs, exhaustive crash-point enumeration per scenario with process-crash and power-loss disk models, recovery oracle against an object/ref model"),
- "C10": ("exploration", "4.7", "(a) seeded build/maintenance histories on a virtual clock (loose objects, packs, duplicates, refs moved/deleted, detached HEAD, tags, alternates, clock advances and skews; pack_loose/repack/gc/prune with grace 0/None/default, midx, commit-graph) checked after every maintenance step against an object/ref model incl. the grace-period bound; (b) maintenance actor against 1-2 long-lived reader actors interleaved at syscall granularity with optional injected errors, every lookup/iteration of a reachable id must succeed",
+ "C10": ("exploration", "4.7", "(a) seeded build/maintenance histories on a virtual clock (loose objects, packs, duplicates, refs moved/deleted, detached HEAD, tags, alternates, clock advances and skews; pack_loose/repack/gc/prune with grace 0/None/default, midx, commit-graph) checked after every maintenance step against an object/ref model incl. the grace-period bound; (b) maintenance actor against 1-2 long-lived reader actors interleaved at syscall granularity with optional injected write- and read-side errors (EIO/EMFILE/EACCES on open, read, listdir), every lookup/iteration (also iterate-and-look-up on one handle) of a reachable id must succeed; a read error inside a maintenance step may fail it but may not lose anything",
          "refs fixed while readers run; 'young' = first added less than grace ago on the virtual clock (sound lower bound); schedules sampled",
          "deterministic simulation: virtual clock + simfs histories against a reference model; baton-passing reader/maintainer actors under seeded schedules with fault injection"),
- "C19": ("exploration", "4.12", "the raw stream under Protocol/ReceivableProtocol/PktLineParser is owned by the simulator: seeded partitions of encoded streams into read/recv chunks (all 2^(n-1) partitions for streams up to 13 bytes), EOF/reset at every offset, all 65536 hex prefixes plus non-hex prefixes, mutated and random byte strings, oversize payloads through every encoder, side-band splitting on three channels, capability/ref lines, pkt-lines followed by a pack through PackStreamReader; every decoder is compared with an independent reference codec",
+ "C19": ("exploration", "4.12", "the raw stream under Protocol/ReceivableProtocol/PktLineParser is owned by the simulator: seeded partitions of encoded streams into read/recv chunks (all 2^(n-1) partitions for streams up to 13 bytes), EOF/reset at every offset, all 65536 hex prefixes plus non-hex prefixes, mutated and random byte strings, oversize payloads through every encoder, side-band splitting on three channels, capability/ref lines, pkt-lines followed by a pack through PackStreamReader, decoding with eof() probes and pushed-back frames in between; every decoder is compared with an independent reference codec",
          "reliable ordered byte streams (only fragmentation/EOF/reset injected); reference codec in the check is the oracle; C git's parser not compared",
          "deterministic simulation of the byte-stream seam: simulator-chosen read/recv partitions and stream endings, differential against a reference codec"),
- "C05": ("exploration", "4.2", "sender and receiver repositories on simfs, dulwich client and dulwich upload-pack/receive-pack server as actors joined by simnet (or LocalGitClient): random commit DAGs, receiver = closure of a random sub-history plus private commits, fetch/clone/push with random wants, capability sets, depth, delta packs; the scheduler owns delivery chunking/delay (hence can_read-driven negotiation), bounded buffers and resets; oracle = model closure byte-identical in the receiver, nothing outside the requested closure arrives, failure leaves refs/object set unchanged, retry without faults completes",
+ "C05": ("exploration", "4.2", "sender and receiver repositories on simfs, dulwich client and dulwich upload-pack/receive-pack server as actors joined by simnet, smart HTTP (dulwich.web's WSGI application called in-process, one stateless request at a time, optionally with a second process moving refs or running maintenance on the served repository and with reset/truncated-response faults), or LocalGitClient: random commit DAGs, receiver = closure of a random sub-history plus private commits, fetch/clone/push with random wants, capability sets, depth (incl. a second fetch into the now shallow repository after the sender's history grew, deepening and unshallowing), hostile wants for unadvertised objects, delta packs; the scheduler owns delivery chunking/delay (hence can_read-driven negotiation), bounded buffers and resets; oracle = model closure byte-identical in the receiver, nothing outside the requested closure arrives, failure leaves refs/object set unchanged, retry without faults completes",
          "dulwich-to-dulwich only (C git and protocol v2 not inside the simulator); smart HTTP not simulated; schedules sampled",
          "deterministic simulation: two nodes + simulated byte-stream network under seeded schedules with fault injection (fragmentation, delay, back-pressure, reset), closure oracle against an object model"),
  "C06": ("exploration", "4.3", "one server repository served by ReceivePackHandler actors, 1-2 pushers (dulwich send_pack over simnet, LocalGitClient, and a scripted raw pkt-line pusher independent of dulwich.protocol that sends stale old values, zero ids and new values absent from its pack) racing on the same refs under seeded syscall- and delivery-level schedules with optional resets; reported statuses must be explained by one CAS chain per ref ending in the server's final value, every server ref must name a present object, atomic pushes must be all-or-nothing",
          "hooks not configured; smart HTTP not simulated; schedules sampled",
          "deterministic simulation: server + racing pusher actors over simnet/simfs under seeded schedules with fault injection, history oracle (per-ref CAS chain reconstruction)"),
- "C04": ("fault_enumeration", "4.1", "the simulator owns the reader callables and the stored bytes: four hand-built base packs are fed to five ingestion paths of the disk store and three of the memory store under simulator-chosen read chunking, with every single-bit flip (also with a recomputed trailer), byte substitutions, every truncation point, appended tails and ~45 grammar-aware attacks (counts, trailer, OFS/REF redirections incl. self/2-/3-cycles, size lies, zlib garbage, decompression bombs, deep chains, unparsable objects); after each ingestion the store is compared with its pre-state (same instance and fresh process) or every new object is re-hashed; seven kinds of stored file are damaged the same way and read back by a fresh Repo",
+ "C04": ("fault_enumeration", "4.1", "the simulator owns the reader callables and the stored bytes: four hand-built base packs are fed to six ingestion paths of the disk store (incl. a push through ReceivePackHandler) and three of the memory store under simulator-chosen read chunking, with every single-bit flip (also with a recomputed trailer), byte substitutions, every truncation point, appended tails and ~45 grammar-aware attacks (counts, trailer, OFS/REF redirections incl. self/2-/3-cycles, size lies, zlib garbage, decompression bombs, deep chains, unparsable objects); after each ingestion the store is compared with its pre-state (same instance and fresh process) or every new object is re-hashed; seven kinds of stored file are damaged the same way and read back by a fresh Repo",
          "mutation families are sharded per plan: one plan covers a sixth/eighth of the offsets, a quick run many plans; wall-clock net of 5 s only counts after a 10x solo re-run; four recorded findings cover stored files that carry no read-time integrity check",
          "deterministic simulation of the stream and storage seams: exhaustive single-fault enumeration (bit/byte/truncation) over small inputs plus structured attacks, with store post-state oracle"),
  "C16": ("exploration", "4.9", "seeded operation histories (6-30 steps) over ten names with directory/file collisions, symref chains and loops, attached/detached HEAD, loose/packed/both refs and peeled tags, covering the whole RefsContainer surface incl. import_refs, interleaved with pack_refs(all|tags), re-opening, alternating between two handles on one directory, stale *.lock fault steps and invalid names, under coarse/zero-step virtual clocks (stat-validated packed-refs cache); after every step the observable state through the same, a fresh and the other handle is compared with a map model; the dict and reftable backends run the restricted sequences",
          "documented RefsContainer contract is the model; handles used strictly in turn; check_ref_format vs git check-ref-format and C git's listing are not decided; three recorded reftable divergences are normalised so the rest of each sequence is still checked",
          "deterministic simulation: simfs + virtual clock, stepwise refinement of operation histories against a reference map model, two handles as alternating processes, fault steps (stale locks)"),
- "C17": ("exploration", "4.10", "every mutating system call of a checkout is resolved (real path of its parent at that instant) by a confinement monitor and must land inside the work tree; the control directory is snapshotted around each operation and may change only in the files checkout maintains; 1-3 adversarial trees (unsafe names, NTFS/HFS spellings, symlinks to absolute/parent/.git targets, names changing kind between trees, odd mode bits) are materialised in sequence by clone, checkout, checkout --force, reset --hard, build_index_from_tree and update_working_tree with protectNTFS/HFS on/off and optional injected errors mid-checkout; canaries outside the work tree and final mode bits are checked",
+ "C17": ("exploration", "4.10", "every mutating system call of a checkout is resolved (real path of its parent at that instant) by a confinement monitor and must land inside the work tree; the control directory is snapshotted around each operation and may change only in the files checkout maintains; 1-3 adversarial trees (unsafe names, NTFS/HFS spellings, symlinks to absolute/parent/.git targets, names changing kind between trees, odd mode bits) (also names that relate: a flat entry 'link/payload' next to the symlink 'link', a symlink whose name extends a populated sibling directory's) are materialised in sequence by clone, checkout, switch, checkout --force, reset --hard, reset --mixed+--hard, restore, stash pop, apply_patch, am, build_index_from_tree and update_working_tree with protectNTFS/HFS on/off and optional injected errors mid-checkout; canaries outside the work tree and final mode bits are checked; a mutating call that would land outside the simulated disk is recorded and refused by the simulator, never executed",
          "work tree six levels deep so escapes stay inside the monitored sandbox; Windows/macOS semantics not simulated; stash apply and patch application not yet driven",
          "deterministic simulation: simfs syscall monitor as a per-call invariant, generated tree sequences as histories, fault injection mid-checkout"),
- "C18": ("exploration", "4.11", "the simulator owns time.time() and every file timestamp (granularity 1 ns .. 2 s): a generated tree (any bytes, empty and large files, executables, symlinks incl. dangling/self-referential, nested directories, non-UTF-8 and quote-needing names) is checked out by reset --hard / checkout / clone, staged again (tree id must round-trip, content/targets/exec bits compared), then 4-14 edits (same-size and other-size modification, chmod, delete, untracked, file<->symlink<->directory, stage, unstage, rm --cached, commit, switch tree) each followed by porcelain.status compared with a three-state content model, under normal, skewed and racy clock configurations",
+ "C18": ("exploration", "4.11", "the simulator owns time.time() and every file timestamp (granularity 1 ns .. 2 s): a generated tree (any bytes, empty and large files, executables, symlinks incl. dangling/self-referential, nested directories, non-UTF-8 and quote-needing names) is checked out by reset --hard / checkout / clone, staged again (tree id must round-trip, content/targets/exec bits compared), then 4-14 edits (same-size and other-size modification, chmod, delete, untracked, file<->symlink<->directory incl. directory->file and type changes that keep the bytes, stage, unstage, rm --cached, add everything, commit, reset --hard, switch between two trees whose names collide as file vs directory) each followed by porcelain.status (untracked_files all and normal) compared with a three-state content model, under normal, skewed and racy clock configurations",
          "content model is the oracle (git status not consulted); autocrlf/filters off; one recorded finding covers the racy-timestamp class",
          "deterministic simulation: virtual clock and file timestamps as the controlled nondeterminism, edit histories checked stepwise against a reference model"),
- "C14": ("exploration", "4.8", "three reader nodes on one simulated disk: A opens the repository as is, B a copy with every accelerator stripped (commit-graph, multi-pack-index, bitmaps removed, packed-refs expanded), C is a long-lived instance opened before the history continued; staleness is produced by a second process (new loose commits, new packs, pack_loose, repack, gc with immediate prune, refs deleted/moved, shallow, grafts) after the accelerators were written, mismatch by copying a commit-graph/midx/bitmap from another repository; every query (get_raw/contains of all known and some absent ids, iteration, parents, MissingObjectFinder and reachability sets, merge bases, ref map, keys) must give A = B, and C = B on objects that exist throughout and on refs",
+ "C14": ("exploration", "4.8", "reader nodes on one simulated disk: A opens the repository as is, B a copy with every accelerator stripped (commit-graph, multi-pack-index, bitmaps removed, packed-refs expanded), C is a long-lived instance opened before the history continued (optionally reading refs while the second process rewrites packed-refs, interleaved at system-call granularity), G the very handle that generated the accelerators; staleness is produced by a second process (new loose commits, new packs, pack_loose, repack, gc with immediate prune, refs deleted/moved, shallow, grafts) after the accelerators were written, mismatch by copying a commit-graph/midx/bitmap from another repository; every query (get_raw/contains of all known and some absent ids, iteration, parents, MissingObjectFinder and reachability sets, merge bases, ref map, keys, peeled value of every ref) must give A = B; refs must also equal the model of what was written, and C = B on objects that exist throughout and on refs",
          "accelerators written by dulwich only; B (same code, accelerators removed) is the reference and is itself checked against the object model; queries restricted to commits whose closure still exists",
          "deterministic simulation: multi-node differential reading of one simfs disk image, staleness and misdirected-write fault steps between accelerator write and query"),
 }
